@@ -122,7 +122,7 @@ class Bitarray:
         return self.check_bit(key)
 
     def __setitem__(self, idx: int, val: int):
-        if val < 0 or val > 1:
+        if val not in (0, 1):
             raise ValueError("Invalid bit setting; must be 0 or 1")
         if idx < 0 or idx >= self._size:
             raise IndexError(f"Bitarray index outside of range; index {idx} was provided")
